@@ -105,12 +105,15 @@ abbrev K (s : String) : Str := s.toList
 /-- "the value found at `path` in the parsed JSON is the encoder's image of the record's own value `w`"
 (a JSON-representable value as itself, anything else as `str(w)`) -/
 def Mirrors (strOf : Nat → Except Err Str) (j : JVal) (path : List Str) (w : PyVal) : Prop :=
-  ∃ jw, toJson Gen.defaultIsStr strOf w = .ok jw ∧ j.get path = some jw
+  ∃ jw, toJson genOpts strOf w = .ok jw ∧ j.get path = some jw
+
+/-- `sort_keys` is off in the REGENERATED keyword arguments: members stay in insertion order -/
+theorem hsort : genOpts.sortKeys = false := rfl
 
 /-- a successful `_serialize_record` is the dump of the encoder's image of the generated dict + LF -/
 theorem serialize_ok (strOf : Nat → Except Err Str) (text : Str) (r : Record) (s : Str)
     (h : serializeRecord strOf text r = .ok s) :
-    ∃ j, toJson Gen.defaultIsStr strOf (serializable text r) = .ok j ∧
+    ∃ j, toJson genOpts strOf (serializable text r) = .ok j ∧
       s = dumps Gen.ensureAscii j ++ ['\n'] := by
   unfold serializeRecord at h
   split at h
@@ -147,10 +150,35 @@ theorem record_mirrored (strOf : Nat → Except Err Str) (text : Str) (r : Recor
       Mirrors strOf j [K "record", K "extra"] r.extra := by
   obtain ⟨j, hj, hs⟩ := serialize_ok strOf text r s h
   refine ⟨j, hs, loads_dumps j, ?_, ?_⟩
-  · obtain ⟨jw, h1, h2⟩ := toJson_get _ strOf [K "text"] _ (.str text) j hj rfl
+  · obtain ⟨jw, h1, h2⟩ := toJson_get _ strOf hsort [K "text"] _ (.str text) j hj rfl
     simp only [toJson] at h1; cases h1; exact h2
   · refine ⟨?_, ?_, ?_, ?_, ?_, ?_, ?_, ?_, ?_, ?_, ?_, ?_, ?_, ?_, ?_, ?_, ?_, ?_, ?_⟩ <;>
-      exact toJson_get _ strOf _ _ _ j hj rfl
+      exact toJson_get _ strOf hsort _ _ _ j hj rfl
+
+/-- … and `extra` is mirrored at EVERY depth: whatever value `w` sits at a key path `p` inside the record's
+`extra` (nested dictionaries, keys read as json writes them: `int` keys as decimals, `None` as `null` …),
+the parsed line has the encoder's image of `w` at `record.extra.p` -/
+theorem extra_mirrored_at_every_path (strOf : Nat → Except Err Str) (text : Str) (r : Record) (s : Str)
+    (h : serializeRecord strOf text r = .ok s) (p : List Str) (w : PyVal) (hw : r.extra.get p = some w) :
+    ∃ j, s = dumps Gen.ensureAscii j ++ ['\n'] ∧ Mirrors strOf j (K "record" :: K "extra" :: p) w := by
+  obtain ⟨j, hj, hs⟩ := serialize_ok strOf text r s h
+  refine ⟨j, hs, toJson_get _ strOf hsort _ _ _ j hj ?_⟩
+  have h1 : (serializable text r).get [K "record", K "extra"] = some r.extra := rfl
+  have h2 : ∀ (q : List Str) (v x : PyVal), v.get q = some x → v.get (q ++ p) = x.get p := by
+    intro q
+    induction q with
+    | nil => intro v x hx; simp only [PyVal.get, Option.some.injEq] at hx; subst hx; rfl
+    | cons k ks ih =>
+      intro v x hx
+      cases v with
+      | dict ms =>
+        simp only [PyVal.get, List.cons_append] at hx ⊢
+        cases hf : ms.find k with
+        | none => rw [hf] at hx; cases hx
+        | some y => rw [hf] at hx; simp only [] at hx ⊢; exact ih y x hx
+      | _ => simp [PyVal.get] at hx
+  have := h2 [K "record", K "extra"] _ _ h1
+  simpa [hw] using this
 
 /-- the exception summary: `null` without exception; otherwise type name (or null), the value
 (an exception instance is opaque, so `str(value)`), and whether a traceback exists -/
@@ -168,17 +196,17 @@ theorem exception_mirrored (strOf : Nat → Except Err Str) (text : Str) (r : Re
   · intro hn
     have hg : (serializable text r).get [K "record", K "exception"] = some .none := by
       simp only [serializable, exceptionValue, hn]; rfl
-    obtain ⟨jw, h1, h2⟩ := toJson_get _ strOf _ _ _ j hj hg
+    obtain ⟨jw, h1, h2⟩ := toJson_get _ strOf hsort _ _ _ j hj hg
     simp only [toJson] at h1; cases h1; exact h2
   · intro e he
     have hser : serializable text r = Gen.serializable (.str text) r (Gen.exceptionSummary e) := by
       simp only [serializable, exceptionValue, he]
     rw [hser] at hj
-    refine ⟨?_, toJson_get _ strOf _ _ _ j hj rfl, ?_⟩
-    · obtain ⟨jw, h1, h2⟩ := toJson_get _ strOf [K "record", K "exception", K "type"] _ (optStr e.typeName) j hj rfl
+    refine ⟨?_, toJson_get _ strOf hsort _ _ _ j hj rfl, ?_⟩
+    · obtain ⟨jw, h1, h2⟩ := toJson_get _ strOf hsort [K "record", K "exception", K "type"] _ (optStr e.typeName) j hj rfl
       rw [h2]
       cases hn : e.typeName <;> (rw [hn] at h1; simp only [optStr, toJson] at h1; cases h1; rfl)
-    · obtain ⟨jw, h1, h2⟩ := toJson_get _ strOf [K "record", K "exception", K "traceback"] _ (.bool e.hasTraceback) j hj rfl
+    · obtain ⟨jw, h1, h2⟩ := toJson_get _ strOf hsort [K "record", K "exception", K "traceback"] _ (.bool e.hasTraceback) j hj rfl
       simp only [toJson] at h1; cases h1; exact h2
 
 /-- exactly the documented keys, in the documented order, and nothing else -/
@@ -198,52 +226,143 @@ theorem record_keys (strOf : Nat → Except Err Str) (text : Str) (r : Record) (
         j.keysAt [K "record", K "exception"] = some [K "type", K "value", K "traceback"]) := by
   obtain ⟨j, hj, hs⟩ := serialize_ok strOf text r s h
   refine ⟨j, hs, ?_, ?_, ?_, ?_, ?_, ?_, ?_, ?_, ?_⟩
-  · exact toJson_keysAt _ strOf [] _ j _ hj rfl
-  · exact toJson_keysAt _ strOf [K "record"] _ j _ hj rfl
-  · exact toJson_keysAt _ strOf [K "record", K "level"] _ j _ hj rfl
-  · exact toJson_keysAt _ strOf [K "record", K "time"] _ j _ hj rfl
-  · exact toJson_keysAt _ strOf [K "record", K "elapsed"] _ j _ hj rfl
-  · exact toJson_keysAt _ strOf [K "record", K "file"] _ j _ hj rfl
-  · exact toJson_keysAt _ strOf [K "record", K "process"] _ j _ hj rfl
-  · exact toJson_keysAt _ strOf [K "record", K "thread"] _ j _ hj rfl
+  · exact toJson_keysAt _ strOf hsort [] _ j _ hj rfl
+  · exact toJson_keysAt _ strOf hsort [K "record"] _ j _ hj rfl
+  · exact toJson_keysAt _ strOf hsort [K "record", K "level"] _ j _ hj rfl
+  · exact toJson_keysAt _ strOf hsort [K "record", K "time"] _ j _ hj rfl
+  · exact toJson_keysAt _ strOf hsort [K "record", K "elapsed"] _ j _ hj rfl
+  · exact toJson_keysAt _ strOf hsort [K "record", K "file"] _ j _ hj rfl
+  · exact toJson_keysAt _ strOf hsort [K "record", K "process"] _ j _ hj rfl
+  · exact toJson_keysAt _ strOf hsort [K "record", K "thread"] _ j _ hj rfl
   · intro e he
     have hser : serializable text r = Gen.serializable (.str text) r (Gen.exceptionSummary e) := by
       simp only [serializable, exceptionValue, he]
     rw [hser] at hj
-    exact toJson_keysAt _ strOf [K "record", K "exception"] _ j _ hj rfl
+    exact toJson_keysAt _ strOf hsort [K "record", K "exception"] _ j _ hj rfl
 
 /-! ### values JSON cannot represent -/
 
-/-- an object the encoder has no rule for becomes the JSON string `str(obj)`; the only way for the
-whole call to fail is that `str()` of one of the opaque objects inside the value fails, and then
-with that very error -/
+/-- an object the encoder has no rule for becomes the JSON string `str(obj)`.  The whole call can fail in
+exactly two ways: `str()` of one of the opaque objects inside the value fails (then with that very error),
+or some dictionary inside the value has a KEY json has no rule for (tuple, bytes, … – `default=` is never
+consulted for keys; `TypeError`).  Without such a key and with every `str()` succeeding it is total.
+The proof needs `default=str`, `sort_keys=False`, `skipkeys=False`, `allow_nan=True` of the regenerated
+keyword arguments (`rfl` on `genOpts`). -/
 theorem unrepresentable_rendered_with_str (strOf : Nat → Except Err Str) :
-    (∀ o t, strOf o = .ok t → toJson Gen.defaultIsStr strOf (.opaque o) = .ok (.str t)) ∧
-    (∀ v e, toJson Gen.defaultIsStr strOf v = .error e → ∃ o ∈ opaques v, strOf o = .error e) ∧
-    (∀ v, (∀ o ∈ opaques v, ∃ t, strOf o = .ok t) → ∃ j, toJson Gen.defaultIsStr strOf v = .ok j) := by
-  have hd : Gen.defaultIsStr = true := rfl
-  rw [hd]
-  refine ⟨?_, fun v e h => toJson_error strOf e v h, ?_⟩
-  · intro o t h; simp [toJson, h]
-  · intro v hall
-    cases hv : toJson true strOf v with
+    (∀ o t, strOf o = .ok t → toJson genOpts strOf (.opaque o) = .ok (.str t)) ∧
+    (∀ v e, toJson genOpts strOf v = .error e →
+      (∃ o ∈ opaques v, strOf o = .error e) ∨ (e = .typeError ∧ ∃ x, x ∈ badKeys v)) ∧
+    (∀ v, badKeys v = [] → (∀ o ∈ opaques v, ∃ t, strOf o = .ok t) → ∃ j, toJson genOpts strOf v = .ok j) := by
+  refine ⟨?_, fun v e h => toJson_error genOpts rfl rfl rfl rfl strOf e v h, ?_⟩
+  · intro o t h
+    have hd : genOpts.useDefault = true := rfl
+    simp [toJson, hd, h]
+  · intro v hb hall
+    cases hv : toJson genOpts strOf v with
     | ok j => exact ⟨j, rfl⟩
     | error e =>
-      obtain ⟨o, ho, hs⟩ := toJson_error strOf e v hv
-      obtain ⟨t, ht⟩ := hall o ho
-      rw [ht] at hs; cases hs
+      rcases toJson_error genOpts rfl rfl rfl rfl strOf e v hv with ⟨o, ho, hs⟩ | ⟨_, x, hx⟩
+      · obtain ⟨t, ht⟩ := hall o ho
+        rw [ht] at hs; cases hs
+      · rw [hb] at hx; cases hx
+
+/-- … on the property's own domain (every dictionary key has a rule: `str`, `int`, `float`, `bool`, `None`)
+a failure can only come from `str()` -/
+theorem fails_only_if_str_fails (strOf : Nat → Except Err Str) (v : PyVal) (e : Err) (hb : badKeys v = [])
+    (h : toJson genOpts strOf v = .error e) : ∃ o ∈ opaques v, strOf o = .error e := by
+  rcases (unrepresentable_rendered_with_str strOf).2.1 v e h with h1 | ⟨_, x, hx⟩
+  · exact h1
+  · rw [hb] at hx; cases hx
 
 /-- … for the record: `_serialize_record` fails only if `str()` fails on an opaque object reachable
-from the dictionary it builds (extra values, exception value, time, elapsed, patched fields) -/
+from the dictionary it builds (extra values, exception value, time, elapsed, patched fields), or a
+dictionary reachable from it has a key without a rule -/
 theorem serialize_fails_only_if_str_fails (strOf : Nat → Except Err Str) (text : Str) (r : Record) (e : Err)
     (h : serializeRecord strOf text r = .error e) :
-    ∃ o ∈ opaques (serializable text r), strOf o = .error e := by
+    (∃ o ∈ opaques (serializable text r), strOf o = .error e) ∨
+      (e = .typeError ∧ ∃ x, x ∈ badKeys (serializable text r)) := by
   unfold serializeRecord at h
   split at h
   · cases h
   · rename_i e' he
     cases h
     exact (unrepresentable_rendered_with_str strOf).2.1 _ _ he
+
+/-- TOTALITY as the property states it ("values JSON cannot represent are rendered with str() instead of
+failing"): every record all of whose reachable opaque objects have a `str()` is serialised.  FALSE of the
+current code (known finding F33): see `serialize_total_statement_false`. -/
+def serialize_total_statement : Prop :=
+  ∀ (strOf : Nat → Except Err Str) (text : Str) (r : Record),
+    (∀ o ∈ opaques (serializable text r), ∃ t, strOf o = .ok t) → ∃ s, serializeRecord strOf text r = .ok s
+
+/-- TOTALITY under the decidable guard "every dictionary key reachable from the record is `str`, `int`,
+`float`, `bool` or `None`" (`badKeys … = []`): such a record, all of whose opaque objects have a `str()`,
+IS serialised (to one line, by `emitted_is_one_line`).  Depends on `sort_keys=False` (mixed
+`str`/`int`/`None` keys are never compared), `allow_nan=True`, `default=str` of the regenerated keywords. -/
+theorem serialize_total_partial (strOf : Nat → Except Err Str) (text : Str) (r : Record)
+    (hb : badKeys (serializable text r) = [])
+    (hall : ∀ o ∈ opaques (serializable text r), ∃ t, strOf o = .ok t) :
+    ∃ s, serializeRecord strOf text r = .ok s := by
+  obtain ⟨j, hj⟩ := (unrepresentable_rendered_with_str strOf).2.2 _ hb hall
+  exact ⟨dumps Gen.ensureAscii j ++ Gen.suffix, by unfold serializeRecord; rw [hj]⟩
+
+/-- the dictionary `_serialize_record` builds has string-literal keys only: a key without a rule can
+only sit inside one of the record's own values -/
+theorem serializable_badKeys (text : Str) (r : Record) (x : Nat) :
+    x ∈ badKeys (serializable text r) ↔
+      x ∈ badKeys r.elapsed ∨ x ∈ badKeys r.elapsedSeconds ∨ x ∈ badKeys (exceptionValue r) ∨
+      x ∈ badKeys r.extra ∨ x ∈ badKeys r.fileName ∨ x ∈ badKeys r.filePath ∨ x ∈ badKeys r.function ∨
+      x ∈ badKeys r.levelIcon ∨ x ∈ badKeys r.levelName ∨ x ∈ badKeys r.levelNo ∨ x ∈ badKeys r.line ∨
+      x ∈ badKeys r.message ∨ x ∈ badKeys r.module ∨ x ∈ badKeys r.name ∨ x ∈ badKeys r.processId ∨
+      x ∈ badKeys r.processName ∨ x ∈ badKeys r.threadId ∨ x ∈ badKeys r.threadName ∨
+      x ∈ badKeys r.time ∨ x ∈ badKeys r.timeTimestamp := by
+  simp only [serializable, Gen.serializable, badKeys, badKeysMembers, PyKey.bad, List.nil_append,
+    List.append_nil, List.mem_append]
+  constructor <;> intro h <;> simp only [or_assoc] at h ⊢ <;> exact h
+
+/-- the model's exact statement of what the code does with a dictionary key json has no rule for: such a
+key ANYWHERE in the record's values makes `_serialize_record` raise – the record is not emitted
+(`skipkeys=False`; `default=str` does not apply to keys) -/
+theorem nonscalar_key_loses_record (strOf : Nat → Except Err Str) (text : Str) (r : Record)
+    (h : ∃ x, x ∈ badKeys (serializable text r)) : ∃ e, serializeRecord strOf text r = .error e := by
+  obtain ⟨e, he⟩ := toJson_badKey genOpts rfl strOf _ h
+  exact ⟨e, by unfold serializeRecord; rw [he]⟩
+
+/-- the full statement is false of the code as it is: a tuple key two levels down in `extra`, every
+`str()` succeeding, and `_serialize_record` raises `TypeError` (F33; replayed on the implementation as
+`WITNESS_OUTSIDE` of harness/c14.py) -/
+theorem serialize_total_statement_false : ¬ serialize_total_statement := by
+  intro h
+  let r : Record :=
+    { elapsed := .opaque 0, elapsedSeconds := .int 0, exception := none,
+      extra := .dict (.cons (.str (K "d")) (.dict (.cons (.str (K "e")) (.dict (.cons (.other 0) (.str (K "x")) .nil)) .nil)) .nil),
+      fileName := .none, filePath := .none, function := .none, levelIcon := .none, levelName := .none,
+      levelNo := .none, line := .none, message := .str (K "tuple key"), module := .none, name := .none,
+      processId := .none, processName := .none, threadId := .none, threadName := .none, time := .opaque 1,
+      timeTimestamp := .int 0 }
+  obtain ⟨s, hs⟩ := h (fun _ => .ok []) (K "tuple key\n") r (fun o _ => ⟨[], rfl⟩)
+  obtain ⟨e, he⟩ := nonscalar_key_loses_record (fun _ => .ok []) (K "tuple key\n") r ⟨0, by decide⟩
+  rw [hs] at he; cases he
+
+/-- no member is dropped and none is reordered: the object written for a dictionary has exactly the
+coerced keys of its items, in insertion order (`int` → decimal, `float` → repr, `True/False/None` →
+`true/false/null`).  Depends on `skipkeys=False`, `sort_keys=False`. -/
+theorem no_member_dropped (strOf : Nat → Except Err Str) (ms : PyMembers) (j : JVal)
+    (h : toJson genOpts strOf (.dict ms) = .ok j) :
+    ∃ js, j = .obj js ∧ js.keys.map some = ms.keyList.map PyKey.text := by
+  obtain ⟨js, rfl, hjs⟩ := toJson_dict genOpts strOf hsort ms j h
+  exact ⟨js, rfl, toJsonMembers_keys genOpts rfl strOf ms js hjs⟩
+
+/-- the alternatives are refuted: with `sort_keys=True` a dictionary with one `int` and one `str` key
+(both have a rule, nothing opaque) is a `TypeError`; with `allow_nan=False` a NaN is a `ValueError`;
+with `skipkeys=True` a member is silently dropped.  (The first is replayed on the implementation by the
+mixed-key generator of harness/c14.py.) -/
+theorem dumps_keywords_matter (strOf : Nat → Except Err Str) :
+    (∃ v, badKeys v = [] ∧ opaques v = [] ∧
+      toJson { genOpts with sortKeys := true } strOf v = .error .typeError) ∧
+    toJson { genOpts with allowNan := false } strOf (.float floatNaN) = .error .valueError ∧
+    toJson { genOpts with skipKeys := true } strOf (.dict (.cons (.other 0) (.int 1) .nil)) = .ok (.obj .nil) :=
+  ⟨⟨.dict (.cons (.int 1) .none (.cons (.str ['a']) .none .nil)), rfl, rfl, rfl⟩, rfl, rfl⟩
 
 /-! ### elapsed.seconds -/
 
@@ -282,6 +401,136 @@ theorem history_mirrors_each_record (strOf : Nat → Except Err Str) (h : List (
   obtain ⟨j, h1, h2, h3, h4, h5, h6, h7, _⟩ := record_mirrored strOf p.1 p.2 s hs
   exact ⟨j, h1, h2, h3, h4, h5, h6, h7⟩
 
+/-- NO STATE ACROSS CALLS: the i-th result of a long-lived handler is `_serialize_record` of the i-th
+(text, record) pair and of nothing else – neither an earlier record (same thread id with another
+name, same level, same process) nor an earlier failure can show in it -/
+theorem history_pointwise (strOf : Nat → Except Err Str) (h : List (Str × Record)) (i : Nat) :
+    (emitHistory strOf h)[i]? = (h[i]?).map (fun p => serializeRecord strOf p.1 p.2) := by
+  have hpure : Gen.serializeIsPure = true := rfl
+  simp only [emitHistory, hpure, if_true, List.getElem?_map]
+  cases h[i]? with
+  | none => rfl
+  | some p => simp [(emit_serializes_formatted strOf p.1 p.2).1]
+
+/-- … hence every field is fresh at every call: the i-th line carries the i-th record's own process
+id/name, thread id/name, time, elapsed, file, function, line, module, name, extra and exception summary,
+whatever the handler serialised before (a thread or process renamed between two calls, a record
+patched with the same id and another name …) -/
+theorem history_mirrors_every_field (strOf : Nat → Except Err Str) (h : List (Str × Record)) (i : Nat)
+    (p : Str × Record) (s : Str) (hp : h[i]? = some p) (hs : (emitHistory strOf h)[i]? = some (.ok s)) :
+    serializeRecord strOf p.1 p.2 = .ok s ∧
+    ∃ j, s = dumps Gen.ensureAscii j ++ ['\n'] ∧ loads (dumps Gen.ensureAscii j) = some j ∧
+      Mirrors strOf j [K "record", K "process", K "id"] p.2.processId ∧
+      Mirrors strOf j [K "record", K "process", K "name"] p.2.processName ∧
+      Mirrors strOf j [K "record", K "thread", K "id"] p.2.threadId ∧
+      Mirrors strOf j [K "record", K "thread", K "name"] p.2.threadName ∧
+      Mirrors strOf j [K "record", K "time", K "repr"] p.2.time ∧
+      Mirrors strOf j [K "record", K "time", K "timestamp"] p.2.timeTimestamp ∧
+      Mirrors strOf j [K "record", K "elapsed", K "repr"] p.2.elapsed ∧
+      Mirrors strOf j [K "record", K "elapsed", K "seconds"] p.2.elapsedSeconds ∧
+      Mirrors strOf j [K "record", K "file", K "name"] p.2.fileName ∧
+      Mirrors strOf j [K "record", K "file", K "path"] p.2.filePath ∧
+      Mirrors strOf j [K "record", K "function"] p.2.function ∧
+      Mirrors strOf j [K "record", K "line"] p.2.line ∧
+      Mirrors strOf j [K "record", K "module"] p.2.module ∧
+      Mirrors strOf j [K "record", K "name"] p.2.name ∧
+      Mirrors strOf j [K "record", K "extra"] p.2.extra ∧
+      (p.2.exception = none → j.get [K "record", K "exception"] = some .null) ∧
+      (∀ e, p.2.exception = some e →
+        Mirrors strOf j [K "record", K "exception", K "value"] e.value ∧
+        j.get [K "record", K "exception", K "traceback"] = some (.bool e.hasTraceback)) := by
+  have hser : serializeRecord strOf p.1 p.2 = .ok s := by
+    have := history_pointwise strOf h i
+    rw [hs, hp] at this
+    simpa using this.symm
+  refine ⟨hser, ?_⟩
+  obtain ⟨j, hj, hsj⟩ := serialize_ok strOf p.1 p.2 s hser
+  obtain ⟨j', hj', hx1, hx2⟩ := exception_mirrored strOf p.1 p.2 s hser
+  have hjj : j' = j := by
+    have h1 : dumps Gen.ensureAscii j' = dumps Gen.ensureAscii j :=
+      List.append_cancel_right (hj'.symm.trans hsj)
+    have h2 := loads_dumps j'
+    rw [h1, loads_dumps j] at h2
+    exact (Option.some.inj h2).symm
+  subst hjj
+  refine ⟨j', hsj, loads_dumps j', ?_, ?_, ?_, ?_, ?_, ?_, ?_, ?_, ?_, ?_, ?_, ?_, ?_, ?_, ?_, hx1, ?_⟩
+  all_goals first
+    | exact toJson_get _ strOf hsort _ _ _ j' hj rfl
+    | (intro e he; exact ⟨(hx2 e he).2.1, (hx2 e he).2.2⟩)
+
+/-! ### the `except Exception:` clause of `emit`: when a record can be lost -/
+
+/-- one `emit` call of a serialising handler: on success the sink is handed exactly the line
+`_serialize_record` built; an error goes back into the logging call when `catch=False` and is reported
+on stderr – the record dropped – only when `catch=True` (`Gen.onError`, regenerated from the handler
+body of `emit`) -/
+theorem emit_outcome (strOf : Nat → Except Err Str) (text : Str) (r : Record) :
+    (∀ s, serializeRecord strOf text r = .ok s → ∀ c, handlerEmit c true strOf text r = .wrote s) ∧
+    (∀ e, serializeRecord strOf text r = .error e →
+      handlerEmit false true strOf text r = .raised e ∧ handlerEmit true true strOf text r = .reported e) := by
+  constructor
+  · intro s h c
+    simp [handlerEmit, (emit_serializes_formatted strOf text r).1, h]
+  · intro e h
+    constructor <;> simp [handlerEmit, (emit_serializes_formatted strOf text r).1, h, Gen.onError]
+
+/-- under the guard of `serialize_total_partial` the record is NEVER lost, whatever `catch` is: the sink
+receives one message, and it is one line -/
+theorem record_never_lost (c : Bool) (strOf : Nat → Except Err Str) (text : Str) (r : Record)
+    (hb : badKeys (serializable text r) = [])
+    (hall : ∀ o ∈ opaques (serializable text r), ∃ t, strOf o = .ok t) :
+    ∃ s, handlerEmit c true strOf text r = .wrote s ∧
+      s.count '\n' = 1 ∧ s.getLast? = some '\n' ∧ '\r' ∉ s := by
+  obtain ⟨s, hs⟩ := serialize_total_partial strOf text r hb hall
+  exact ⟨s, (emit_outcome strOf text r).1 s hs c, emitted_one_newline strOf text r s hs⟩
+
+/-- a record dropped by a `catch=True` handler has one of the two causes: `str()` of a reachable object
+failed with that error, or (F33) a reachable dictionary has a key json has no rule for -/
+theorem lost_only_with_cause (strOf : Nat → Except Err Str) (text : Str) (r : Record) (e : Err)
+    (h : handlerEmit true true strOf text r = .reported e) :
+    (∃ o ∈ opaques (serializable text r), strOf o = .error e) ∨
+      (e = .typeError ∧ ∃ x, x ∈ badKeys (serializable text r)) := by
+  cases hs : serializeRecord strOf text r with
+  | ok s => rw [(emit_outcome strOf text r).1 s hs true] at h; cases h
+  | error e' =>
+    rw [((emit_outcome strOf text r).2 e' hs).2] at h
+    injection h with h
+    subst h
+    exact serialize_fails_only_if_str_fails strOf text r e' hs
+
+/-- a history on one handler: the sink has received exactly the lines of the records that could be
+serialised, in order – a record that failed (re-raised or reported) neither leaves a partial line nor
+disturbs a later one; every received message is one line -/
+theorem sink_lines_are_the_successes (c : Bool) (strOf : Nat → Except Err Str) (h : List (Str × Record)) :
+    sinkLines c true strOf h = h.filterMap (fun p => (serializeRecord strOf p.1 p.2).toOption) ∧
+    ∀ s ∈ sinkLines c true strOf h, s.count '\n' = 1 ∧ s.getLast? = some '\n' ∧ '\r' ∉ s := by
+  have key : ∀ p : Str × Record,
+      (match handlerEmit c true strOf p.1 p.2 with | .wrote s => some s | _ => none) =
+        (serializeRecord strOf p.1 p.2).toOption := by
+    intro p
+    cases hs : serializeRecord strOf p.1 p.2 with
+    | ok s => rw [(emit_outcome strOf p.1 p.2).1 s hs c]; rfl
+    | error e =>
+      cases c
+      · rw [((emit_outcome strOf p.1 p.2).2 e hs).1]; rfl
+      · rw [((emit_outcome strOf p.1 p.2).2 e hs).2]; rfl
+  have h1 : sinkLines c true strOf h = h.filterMap (fun p => (serializeRecord strOf p.1 p.2).toOption) := by
+    unfold sinkLines
+    congr 1
+    funext p
+    exact key p
+  refine ⟨h1, ?_⟩
+  intro s hs
+  rw [h1, List.mem_filterMap] at hs
+  obtain ⟨p, _, hp⟩ := hs
+  cases hser : serializeRecord strOf p.1 p.2 with
+  | ok s' =>
+    rw [hser] at hp
+    simp only [Except.toOption, Option.some.injEq] at hp
+    subst hp
+    exact emitted_one_newline strOf p.1 p.2 s' hser
+  | error e => rw [hser] at hp; simp [Except.toOption] at hp
+
 /-! ### non-vacuity -/
 
 def exFloat : FloatTok := ⟨"1.5e-07".toList, by decide⟩
@@ -299,7 +548,7 @@ example : escapeChar Gen.ensureAscii '\u2028' = ['\u2028'] := non_ascii_verbatim
 
 def exRecord : Record :=
   { elapsed := .opaque 0, elapsedSeconds := .float exFloat, exception := some ⟨some (K "ValueError"), .opaque 1, true⟩,
-    extra := .dict (.cons (K "k") (.list (.cons (.opaque 2) .nil)) .nil), fileName := .str (K "f.py"),
+    extra := .dict (.cons (.str (K "k")) (.list (.cons (.opaque 2) .nil)) .nil), fileName := .str (K "f.py"),
     filePath := .str (K "/f.py"), function := .str (K "<module>"), levelIcon := .str (K "ℹ️"),
     levelName := .str (K "INFO"), levelNo := .int 20, line := .int 7, message := .str (K "a\nb"),
     module := .str (K "f"), name := .none, processId := .int 1, processName := .str (K "MainProcess"),
@@ -307,13 +556,41 @@ def exRecord : Record :=
 def exStr : Nat → Except Err Str := fun o => if o = 2 then .error .valueError else .ok (K "x\r")
 def exStrOk : Nat → Except Err Str := fun _ => .ok (K "b'\\n'")
 
-example : ∃ s, serializeRecord exStrOk (K "a\nb\n") exRecord = .ok s := by
-  obtain ⟨j, hj⟩ := (unrepresentable_rendered_with_str exStrOk).2.2 (serializable (K "a\nb\n") exRecord)
-    (fun o _ => ⟨_, rfl⟩)
-  exact ⟨dumps Gen.ensureAscii j ++ Gen.suffix, by unfold serializeRecord; rw [hj]⟩
-example : (toJson Gen.defaultIsStr exStr (.list (.cons (.opaque 1) (.cons (.opaque 2) .nil))) matches .error .valueError) = true := by
+example : ∃ s, serializeRecord exStrOk (K "a\nb\n") exRecord = .ok s :=
+  serialize_total_partial exStrOk _ exRecord (by decide) (fun o _ => ⟨_, rfl⟩)
+example : (toJson genOpts exStr (.list (.cons (.opaque 1) (.cons (.opaque 2) .nil))) matches .error .valueError) = true := by
   decide
-example : (toJson Gen.defaultIsStr exStr (.list (.cons (.opaque 1) .nil))).toOption.map (dumps Gen.ensureAscii) =
+example : (toJson genOpts exStr (.list (.cons (.opaque 1) .nil))).toOption.map (dumps Gen.ensureAscii) =
     some "[\"x\\r\"]".toList := by decide
+
+/-- mixed key types in one (nested) dictionary: total, keys coerced, insertion order kept -/
+def exMixed : PyVal :=
+  .dict (.cons (.int 1) (.str (K "a")) (.cons (.str (K "1")) .none (.cons .none (.bool true)
+    (.cons (.bool false) (.dict (.cons (.float exFloat) (.int 2) .nil)) .nil))))
+example : (toJson genOpts exStrOk exMixed).toOption.map (dumps Gen.ensureAscii) =
+    some "{\"1\": \"a\", \"1\": null, \"null\": true, \"false\": {\"1.5e-07\": 2}}".toList := by decide
+example : badKeys exMixed = [] := by decide
+example : exMixed.get [K "false", K "1.5e-07"] = some (.int 2) := rfl
+example : exRecord.extra.get [K "k"] = some (.list (.cons (.opaque 2) .nil)) := rfl
+example : ∃ js, toJson genOpts exStrOk exMixed = .ok (.obj js) ∧ js.keys = [K "1", K "1", K "null", K "false"] := by
+  refine ⟨_, rfl, ?_⟩; decide
+/-- a tuple key two levels down in `extra`: the record is lost (F33) -/
+def exBadRecord : Record :=
+  { exRecord with extra := .dict (.cons (.str (K "d")) (.dict (.cons (.other 7) (.int 1) .nil)) .nil) }
+example : ∃ e, serializeRecord exStrOk (K "x\n") exBadRecord = .error e :=
+  nonscalar_key_loses_record exStrOk _ exBadRecord ⟨7, by decide⟩
+example : (serializeRecord exStrOk (K "x\n") exBadRecord matches .error .typeError) = true := by decide
+example : handlerEmit true true exStrOk (K "x\n") exBadRecord = .reported .typeError := by decide
+example : handlerEmit false true exStrOk (K "x\n") exBadRecord = .raised .typeError := by decide
+example : ∃ s, handlerEmit true true exStrOk (K "y\n") exRecord = .wrote s :=
+  (record_never_lost true exStrOk _ exRecord (by decide) (fun o _ => ⟨_, rfl⟩)).imp fun _ h => h.1
+/-- a history: the failing record leaves no trace, the next one is written -/
+example : ∃ s, sinkLines true true exStrOk [(K "x\n", exBadRecord), (K "y\n", exRecord)] = [s] := by
+  obtain ⟨s, hs⟩ := serialize_total_partial exStrOk (K "y\n") exRecord (by decide) (fun o _ => ⟨_, rfl⟩)
+  obtain ⟨e, he⟩ := nonscalar_key_loses_record exStrOk (K "x\n") exBadRecord ⟨7, by decide⟩
+  exact ⟨s, by rw [(sink_lines_are_the_successes true exStrOk _).1]; simp [hs, he, Except.toOption]⟩
+example : (emitHistory exStrOk [(K "x\n", exBadRecord), (K "y\n", exRecord)])[1]? =
+    some (serializeRecord exStrOk (K "y\n") exRecord) := by
+  rw [history_pointwise]; rfl
 
 end C14
